@@ -198,23 +198,46 @@ func TestVerifC15Sequential(t *testing.T) {
 		}()
 		// only this sequence's goroutine touches its queue: if it sits in a mutex acquisition inside the queue package, nobody
 		// can ever release that mutex. That is decided from the goroutine's state, not from elapsed time.
-		stuck := false
+		stuck, blocked, parkedSamples := false, false, 0
 		for waiting := true; waiting; {
 			select {
 			case <-seqDone:
 				waiting = false
 			case <-time.After(20 * time.Millisecond):
+				parkedNow := false
 				for _, g := range verifsched.Goroutines() {
-					inSeq, inQueueLock := false, false
+					inSeq, inQueueLock, inWait := false, false, false
 					for _, f := range g.Frames {
 						inSeq = inSeq || strings.Contains(f, "c15SeqMarker")
 						inQueueLock = inQueueLock || strings.Contains(f, "internal/queue.(*SimpleQueue") || strings.Contains(f, "internal/queue.(*PriorityQueue")
+						inWait = inWait || strings.Contains(f, "WaitForItem")
 					}
 					if inSeq && inQueueLock && (strings.Contains(g.State, "Mutex") || strings.Contains(g.State, "semacquire")) {
 						stuck, waiting = true, false
 					}
+					// the sequence only waits (with a live context) when the reference queue is NOT empty: being parked inside
+					// the wait - select / channel receive / condition variable - means items that were added are not handed out,
+					// and nobody else will ever add one
+					if inSeq && inWait && (g.State == "select" || strings.HasPrefix(g.State, "chan receive") || strings.Contains(g.State, "Cond.Wait")) {
+						parkedNow = true
+					}
+				}
+				if parkedNow {
+					parkedSamples++
+				} else {
+					parkedSamples = 0
+				}
+				if parkedSamples >= 5 {
+					blocked, waiting = true, false
 				}
 			}
+		}
+		if blocked {
+			rep.Violate("C15/fifo/consumer-blocked-although-items-pending", "a lone task waits for an item with a live context although items it added earlier were never handed out: an item was lost on the way", fmt.Sprintf("sequence %d (seed label c15-seq-%d)", s, s))
+			if rep.ViolationCount() >= 3 {
+				break
+			}
+			continue
 		}
 		if stuck {
 			rep.Violate("C15/deadlock/sequential", "a single task using the queue alone is blocked acquiring the queue's own mutex: an earlier call returned with the mutex held", fmt.Sprintf("sequence %d (seed label c15-seq-%d)", s, s))
